@@ -1193,8 +1193,10 @@ class RoundGen:
         if kind in ("const", "scribble", "raise", "mutate"):
             typ = rng.choice(["float", "int", "str", "bool"])
             v = self.scalar_value(typ)
-            if not v:
+            if v is None or v == "":
                 v = {"float": 2.5, "int": 3, "str": "dog", "bool": True}[typ]
+            elif typ in ("float", "int") and rng.random() < 0.25:
+                v = 0.0 if typ == "float" else 0   # a function may well return zero
             fam, unit = self.unit_for(typ)
             st.update(type=typ, unit=unit, fn={"kind": kind, "value": v})
         st["indent"] = self.goto(chain)
